@@ -235,6 +235,11 @@ func (e *Exec) symTime(name string) Value {
 	if !e.declared[ext+"#p1"] {
 		e.declared[ext+"#p1"] = true
 		e.assume(fmt.Sprintf("(bvult %s (_ bv1000000000 64))", ns))
+		if strings.HasPrefix(name, "c.") || strings.HasPrefix(name, "crl.") || strings.HasPrefix(name, "ocsp.") {
+			// times of a parsed object come from DER UTCTime / GeneralizedTime, which the parsers read in whole
+			// seconds (layouts without a fractional part): no sub-second component
+			e.assume(fmt.Sprintf("(= %s (_ bv0 64))", ns))
+		}
 		e.assume(fmt.Sprintf("(and (bvslt %s (_ bv36028797018963968 64)) (bvsgt %s (bvneg (_ bv36028797018963968 64))))", ext, ext))
 	}
 	return &StructV{F: []Value{&BV{T: ns, W: 64}, &BV{T: ext, W: 64}, e.symLocation(name)}}
